@@ -307,7 +307,7 @@ func (s *SavedMetadata) UnmarshalJSON(data []byte) error {
 	case strings.ToUpper(MetaTargetTypeTransaction):
 		id, err = strconv.ParseUint(string(x.TargetID), 10, 64)
 	default:
-		panic("unknown type")
+		return fmt.Errorf("unknown type '%s'", x.TargetType)
 	}
 	if err != nil {
 		return err
